@@ -15,7 +15,7 @@ from vlib.core import Outcome, Sub
 from vlib import drive, oracles
 
 PROPERTY = "C02"
-RULE = ("combi: (d in 1..3 (4 thorough), 1<=lmin, lmax=lmin+0..3, box [a,b] per dimension from integers / dyadics / non-dyadic "
+RULE = ("combi: (d in 1..3 (4 thorough), 1<=lmin<=5, lmax=lmin+0..5 (mostly <=3), box [a,b] per dimension from integers / dyadics / non-dyadic "
         "floats / narrow boxes far from the origin, TrapezoidalGrid boundary on|off, operation Integration|Interpolation, "
         "integrator default|'old', a permutation of the observation blocks integrate / points / call / interpolate_grid / "
         "points-and-weights, optionally after the same objects have been used for another (lmin,lmax)). The integrand is one vector-valued FunctionCustom = [smooth driver, pseudo-random table on "
@@ -381,7 +381,7 @@ def run_combi(case, corrupt=None):
     truthC = model.values(cross)
     arb_scale = np.maximum(1.0, np.max(np.abs(truthP[:nS, :na]), axis=0))
     full_scale = np.concatenate([arb_scale, scale[na:]])
-    sgi_ok = len(model.allfn) <= case.get("sgi_cap", 1600)
+    sgi_ok = len(model.allfn) <= case.get("sgi_cap", 3000)
     if sgi_ok:
         sgi_off, sgi_int = model.sparse_grid_interpolant(off)
     else:
@@ -601,13 +601,13 @@ def _draw_box(draw, dim):
 
 def combi_strategy(tier):
     maxdim = 3 if tier == "quick" else 4
-    cap = 5000 if tier == "quick" else 30000
+    cap = 12000 if tier == "quick" else 30000
 
     @st.composite
     def s(draw):
-        dim = draw(st.integers(1, maxdim))
+        dim = draw(st.sampled_from([1, 2, 2, 3, 3, 3] + ([4] if maxdim >= 4 else [])))
         lmin = draw(st.integers(1, {1: 5, 2: 4, 3: 3, 4: 2}[dim]))
-        diff = draw(st.integers(0, 3))
+        diff = draw(st.sampled_from([0, 1, 2, 2, 3, 3, 4, 5]))
         boundary = draw(st.booleans())
         # construction instead of rejection: shrink the configuration until it fits the point budget
         while scheme_cost(dim, lmin, lmin + diff)[1] > cap:
@@ -632,7 +632,7 @@ def scheme_strategy(tier):
     def s(draw):
         dim = draw(st.integers(1, 5))
         lmin = draw(st.integers(1, 5))
-        diff = draw(st.integers(0, 3))
+        diff = draw(st.integers(0, 5))
         while scheme_cost(dim, lmin, lmin + diff)[1] > cap:
             if lmin > 1:
                 lmin -= 1
@@ -714,7 +714,7 @@ def selftest():
 
 
 SUBS = [
-    Sub("combi", combi_strategy, run_combi, dict(quick=700, thorough=12000), budget_s=dict(quick=45, thorough=560),
+    Sub("combi", combi_strategy, run_combi, dict(quick=1600, thorough=10000), budget_s=dict(quick=40, thorough=520),
         fixed_cases=combi_fixed),
-    Sub("scheme", scheme_strategy, run_scheme, dict(quick=500, thorough=6000), budget_s=dict(quick=15, thorough=120)),
+    Sub("scheme", scheme_strategy, run_scheme, dict(quick=800, thorough=6000), budget_s=dict(quick=10, thorough=60)),
 ]
